@@ -220,6 +220,8 @@ class HDFOutput(Output):
                 else:
                     array.add_property(prop_name, type=type_, default=default,
                                        stride=stride)
+            # particles may have been dumped with their ghosts
+            array.align_particles()
             if 'output_property_arrays' in prop_array.attrs:
                 output_array = [
                     _to_str(x)
